@@ -529,6 +529,17 @@ impl MaTreeNode {
                     continue;
                 }
             };
+            // A decision that cannot go both ways within `range` selects one child for the
+            // whole range; it must not contribute a range boundary.
+            if value >= *range.end() {
+                stack.push((&**right, range));
+                continue;
+            }
+            if value < *range.start() {
+                stack.push((&**left, range));
+                continue;
+            }
+
             let new_lower_bound = lower_bound.min(value);
             let new_upper_bound = upper_bound.max(value);
             if new_upper_bound.abs_diff(new_lower_bound) > 1024 - 2 {
